@@ -104,6 +104,10 @@ bool verify_core(const KindInfo& K, const Site& s, Rounding_Dir dir, const char*
       ++c_unk;
       return true;
     }
+    // floating point fused ops are computed as x*y + to in the type itself: with an infinite accumulator and a product
+    // that overflows the type on the other side the hardware yields inf - inf (a "FIXME: missing check_inf_add_inf" in
+    // checked_float_inlines.hh); like V_UNKNOWN_*_OVERFLOW this is accepted iff the intermediate overflow is real
+    if (K.is_flt && ex.has_prod && ex.acc_inf && ex.prod.fin() && (xcmp(ex.prod, L.lo) < 0 || xcmp(ex.prod, L.hi) > 0)) { static unsigned long& c_fn = hx::st().counters["ok.float_fused_nan_on_intermediate_overflow"]; ++c_fn; return true; }
     NK_FAIL("nan", "nan-on-defined");
   }
   int true_rel;   // relation  exact REL stored  as a Result_Relation bit
@@ -128,6 +132,7 @@ bool verify_core(const KindInfo& K, const Site& s, Rounding_Dir dir, const char*
   if (ovf_code || (st.inf() && ex.v.fin())) {
     if (!L.bounded) NK_FAIL("ovf", "overflow-in-unbounded-type");
     bool below = xcmp(ex.v, L.lo) < 0, above = xcmp(ex.v, L.hi) > 0;
+    if (K.is_flt && ex.has_prod && ex.prod.fin()) { if (xcmp(ex.prod, L.lo) < 0) below = true; if (xcmp(ex.prod, L.hi) > 0) above = true; }   // unfused float multiply-add: an overflowing product saturates
     bool claims_neg = (rel == VR_LT && ovf_code) || st.k == XQ::MINF;   // V_LT_INF: exact < min ; stored -inf
     bool claims_pos = (rel == VR_GT && ovf_code) || st.k == XQ::PINF;
     if (ovf_code && rel == VR_LT && !(st.fin() && st.q == L.lo)) NK_FAIL("ovf", "lt-inf-but-stored-not-min");
@@ -161,7 +166,15 @@ static bool risky_e2(const KindInfo& K, const char* op, const XQ&, unsigned e) {
   return false;
 }
 
+// Once an input of class `cls` crashed at this site, the remaining inputs of that class are not executed any more
+// (each would cost one forked child and would add nothing): they are counted in skipped.known_ub_class.
+static std::set<std::string>& crashed_classes() { static std::set<std::string> s; return s; }
+static bool known_crash(const Site& s, const char* cls) {
+  if (crashed_classes().count(std::string(s.op) + "|" + s.type + "|" + s.pol + "|" + cls)) { hx::count("skipped.known_ub_class"); return true; }
+  return false;
+}
 static bool probe_report(const Site& s, const char* cls, const std::string& operands, const std::string& why) {
+  crashed_classes().insert(std::string(s.op) + "|" + s.type + "|" + s.pol + "|" + cls);
   hx::checked();
   hx::violation(std::string("C11.ub.") + s.op + "." + s.type + ":" + cls, std::string("sanitizer report / crash inside ") + s.op + "<" + s.type + "/" + s.pol + ">(" + operands + "): " + why);
   return false;
@@ -187,6 +200,7 @@ void run_binary_core(const KindInfo& K, const char* op, BinRun run, Ex (*exact)(
       const char* cls = intern(cl);
       Desc desc = desc2(ax, ay);
       if (risky_bin(K, op, ax, ay)) {
+        if (known_crash(s, cls)) continue;
         std::string why;
         if (!survives([&]() { XQ st; for (int d = 0; d < NDIRS; ++d) run(xs, i, ys, j, DIRS[d].d, st); }, why)) { probe_report(s, cls, desc(), why); continue; }
       }
@@ -218,6 +232,7 @@ void run_unary_core(const KindInfo& K, const char* op, UnRun run, Ex (*exact)(co
     const char* cls = intern(cl);
     Desc desc = desc1(ax);
     if (risky_un(K, op, ax)) {
+      if (known_crash(s, cls)) continue;
       std::string why;
       if (!survives([&]() { XQ st; for (int d = 0; d < NDIRS; ++d) run(xs, i, DIRS[d].d, st); }, why)) { probe_report(s, cls, desc(), why); continue; }
     }
@@ -251,9 +266,10 @@ void run_2exp_core(const KindInfo& K, const char* op, E2Run run, Ex (*exact)(con
       // 2^e and 2^200 once e >= 200, so the oracle works with min(e, 200) (2^(2^32-1) does not fit in memory)
       Ex ex = exact(ax, (K.is_int && e > 200) ? 200 : e);
       if (!K.in_contract(ex.u)) { ++skipped; continue; }
-      const char* cls = intern(exp_class(K, e) + "," + (ax.fin() ? (::sgn(ax.q) < 0 ? "neg" : ::sgn(ax.q) > 0 ? "pos" : "zero") : "special") + "," + res_class(K, ex, ax.inf()));
+      const char* cls = intern(exp_class(K, e) + "_" + (ax.fin() ? (::sgn(ax.q) < 0 ? "neg" : ::sgn(ax.q) > 0 ? "pos" : "zero") : "special") + "_" + res_class(K, ex, ax.inf()));
       Desc desc = desce(ax, e);
       if (risky_e2(K, op, ax, e)) {
+        if (known_crash(s, cls)) continue;
         std::string why;
         if (!survives([&]() { XQ st; for (int d = 0; d < NDIRS; ++d) run(xs, i, e, DIRS[d].d, st); }, why)) { probe_report(s, cls, desc(), why); continue; }
       }
@@ -280,7 +296,11 @@ void run_fused_core(const KindInfo& K, const char* op, bool sub, FuRun run, cons
       const XQ& ay = dy[j]; const XQ& at = da[k];
       Ex ex = ex_fused(at, ax, ay, sub);
       if (!K.in_contract(ex.u)) { ++skipped; continue; }
-      const char* cls = intern(res_class(K, ex, ax.inf() || ay.inf() || at.inf()));
+      bool prod_ovf = ex.u == U_NONE && K.lim.bounded && ex.prod.fin() && (xcmp(ex.prod, K.lim.lo) < 0 || xcmp(ex.prod, K.lim.hi) > 0);
+      if (K.is_flt && !K.c_fpu_nan && at.inf() && prod_ovf) { ++skipped; continue; }   // yields a NaN the policy declares it does not look for
+      std::string cl = res_class(K, ex, ax.inf() || ay.inf());
+      if (ex.u == U_NONE && at.inf()) cl = prod_ovf ? "inf-accumulator-product-overflow" : "inf-accumulator";
+      const char* cls = intern(cl);
       Desc desc = desc3(at, ax, ay);
       for (int d = 0; d < NDIRS; ++d) {
         if (g_verbose()) fprintf(stderr, "op: %s<%s/%s>(%s, ROUND_%s)\n", s.op, s.type.c_str(), s.pol, desc().c_str(), DIRS[d].name);
@@ -336,7 +356,8 @@ void run_specials_core(const KindInfo& K, SpRun run) {
 
 void run_compare_core(const KindInfo& A, const KindInfo& B, CmpRun run, SgnRun sg, const void* xs, const void* ys) {
   static const char* const NM[6] = { "equal", "not_equal", "less_than", "less_or_equal", "greater_than", "greater_or_equal" };
-  std::string ty = std::string(A.tname) + "," + B.tname, pol = std::string(A.pol) + "," + B.pol;
+  std::string ty = std::string(A.tname) + "_vs_" + B.tname, pol = std::string(A.pol) + "," + B.pol;
+  const std::string mixed = strcmp(A.pol, B.pol) == 0 ? "same-policy-" : "mixed-policy-";
   size_t nx = A.size(xs), ny = B.size(ys);
   std::vector<XQ> dy; for (size_t j = 0; j < ny; ++j) dy.push_back(B.dec_at(ys, j));
   unsigned long done = 0;
@@ -347,7 +368,7 @@ void run_compare_core(const KindInfo& A, const KindInfo& B, CmpRun run, SgnRun s
       if (g_verbose()) fprintf(stderr, "op: compare<%s/%s>(%s, %s)\n", ty.c_str(), pol.c_str(), show(ax).c_str(), show(ay).c_str());
       CmpOut o = run(xs, i, ys, j, c != 2);
       bool want[6] = { c == 0, c != 0, c == -1, c == -1 || c == 0, c == 1, c == 1 || c == 0 };
-      const char* cls = c == 2 ? "nan-operand" : (ax.inf() || ay.inf()) ? "inf-operand" : c == 0 ? "equal" : "different";
+      const char* cls = intern(mixed + (c == 2 ? "nan-operand" : (ax.inf() || ay.inf()) ? "inf-operand" : "finite"));
       hx::checked(6); done += 6;
       for (int k = 0; k < 6; ++k)
         if (o.p[k] != want[k]) hx::violation(std::string("C11.rel.") + NM[k] + "." + ty + ":" + cls, std::string(NM[k]) + "<" + ty + "/" + pol + ">(" + show(ax) + ", " + show(ay) + ") returned " + (o.p[k] ? "true" : "false"));
@@ -389,7 +410,7 @@ static void run_case(uint64_t) {
         case 8: case 9: nk::w64s_case(); break; case 10: case 11: nk::w64u_case(); break; default: nk::w64ll_case(); break; }
     }
     else if (profile == "float") { int w = hx::rnd(0, 2); if (w == 0) nk::float_case_f(); else if (w == 1) nk::float_case_d(); else nk::float_case_l(); }
-    else if (profile == "gmp") nk::gmp_case();
+    else if (profile == "gmp") { if (hx::coin()) nk::gmp_case_z(); else nk::gmp_case_q(); }
     else { fprintf(stderr, "numkernel: unknown profile '%s' (i8, wide, float, gmp)\n", profile.c_str()); exit(2); }
   }
   catch (const std::exception& e) {
